@@ -602,8 +602,8 @@ impl ChannelManager {
     // Apply pagination if requested
     let (nids, response_page, response_page_size, response_total_count) =
       if let (Some(page), Some(page_size)) = (page, page_size) {
-        let start = ((page - 1) * page_size) as usize;
-        let end = (start + page_size as usize).min(all_nids.len());
+        let start = (page.saturating_sub(1) as usize).saturating_mul(page_size as usize);
+        let end = start.saturating_add(page_size as usize).min(all_nids.len());
         let paginated_nids = if start < all_nids.len() { all_nids[start..end].to_vec() } else { Vec::new() };
         (paginated_nids, Some(page), Some(page_size), Some(total_count))
       } else {
